@@ -178,7 +178,7 @@ macro_rules
         | peel uq_frame 8)) <;> done)
 
 theorem uq_finalizeFilePart {s : State} (h : UQ s) (now : Nat) : UQ (finalizeFilePart s now).1 := by
-  simp only [finalizeFilePart]
+  simp only [finalizeFilePart, verifyStage, copyStage]
   repeat' split
   all_goals uq_auto []
 
